@@ -930,8 +930,8 @@ def imported_name_resolve(run):
     core.explore(lambda: None, lambda p, out: go(p))
 
 
-@harness(['C07'], 'supp.project.Project.list_packages', bounded='directory trees: 2 source roots x every subset of 6 entry kinds (module, package, plain directory, '
-         'compiled-suffix file, __init__.py, non-python file) in the listed directory; names over a 3-letter alphabet')
+@harness(['C07'], 'supp.project.Project.list_packages', bounded='directory trees: 2 source roots x every subset of 7 entry kinds (module, package, plain directory, '
+         'compiled-suffix file, __init__.py, non-python file, files / packages whose name is not an identifier) in the listed directory')
 def list_packages_bounded(run):
     """BOUNDED stand-in (nested loops over os.listdir results with suffix stripping): the children listed for a package root are exactly
     the importable children (module files by importlib's suffixes, package directories) of that package directory in every root, plus
@@ -949,7 +949,9 @@ def list_packages_bounded(run):
                  'plaindir': lambda d: os.makedirs(os.path.join(d, 'dc')),
                  'ext': lambda d: open(os.path.join(d, 'ex' + importlib.machinery.EXTENSION_SUFFIXES[0]), 'w').close(),
                  'init': lambda d: open(os.path.join(d, '__init__.py'), 'w').close(),
-                 'other': lambda d: open(os.path.join(d, 'notes.txt'), 'w').close()}
+                 'other': lambda d: open(os.path.join(d, 'notes.txt'), 'w').close(),
+                 'unnameable': lambda d: (open(os.path.join(d, 'data-2024.py'), 'w').close(), os.makedirs(os.path.join(d, 'not.a-name')),
+                                          open(os.path.join(d, 'not.a-name', '__init__.py'), 'w').close())}
         expect = {'mod': 'ma', 'pkg': 'pb', 'ext': 'ex'}
         names = sorted(kinds)
         n = 0
